@@ -237,3 +237,73 @@ func TestC17UpdateItemWithoutExpression(t *testing.T) {
 		}
 	}()
 }
+
+// C08: an UpdateTable that fails leaves nothing behind. Before the fix the changes applied before the failing one stayed
+// (an index created in the same request was there afterwards) and so did the attribute definitions of the request (a
+// later index on such an attribute, sent without a definition, was accepted), through both clients.
+func TestC08FailingUpdateTableLeavesNoTrace(t *testing.T) {
+	ctx := context.Background()
+	str := func(s string) *string { return &s }
+	mk := func(name, attr string) v2types.GlobalSecondaryIndexUpdate {
+		return v2types.GlobalSecondaryIndexUpdate{Create: &v2types.CreateGlobalSecondaryIndexAction{IndexName: str(name),
+			KeySchema:  []v2types.KeySchemaElement{{AttributeName: str(attr), KeyType: v2types.KeyTypeHash}},
+			Projection: &v2types.Projection{ProjectionType: v2types.ProjectionTypeAll}}}
+	}
+	c := v2.NewClient()
+	tbl := "tbl"
+	if _, err := c.CreateTable(ctx, &dynamodb.CreateTableInput{TableName: &tbl, BillingMode: v2types.BillingModePayPerRequest,
+		AttributeDefinitions: []v2types.AttributeDefinition{{AttributeName: str("h"), AttributeType: v2types.ScalarAttributeTypeS}},
+		KeySchema:            []v2types.KeySchemaElement{{AttributeName: str("h"), KeyType: v2types.KeyTypeHash}}}); err != nil {
+		t.Fatal(err)
+	}
+	indexes := func() int {
+		d, err := c.DescribeTable(ctx, &dynamodb.DescribeTableInput{TableName: &tbl})
+		if err != nil {
+			t.Fatal(err)
+		}
+		return len(d.Table.GlobalSecondaryIndexes)
+	}
+	// the second change fails: the index of the first one must not be there
+	_, err := c.UpdateTable(ctx, &dynamodb.UpdateTableInput{TableName: &tbl,
+		AttributeDefinitions: []v2types.AttributeDefinition{{AttributeName: str("g"), AttributeType: v2types.ScalarAttributeTypeS}},
+		GlobalSecondaryIndexUpdates: []v2types.GlobalSecondaryIndexUpdate{mk("ix", "g"),
+			{Delete: &v2types.DeleteGlobalSecondaryIndexAction{IndexName: str("nosuch")}}}})
+	if err == nil {
+		t.Fatal("deleting an index that does not exist succeeded")
+	}
+	if n := indexes(); n != 0 {
+		t.Errorf("v2: the failed UpdateTable left %d index(es)", n)
+	}
+	// ... nor the definition of g
+	if _, err := c.UpdateTable(ctx, &dynamodb.UpdateTableInput{TableName: &tbl, GlobalSecondaryIndexUpdates: []v2types.GlobalSecondaryIndexUpdate{mk("ix", "g")}}); err == nil {
+		t.Errorf("v2: an index on g was accepted without a definition: the definition of the failed request stayed")
+	}
+	// a request that goes through still takes effect as a whole
+	if _, err := c.UpdateTable(ctx, &dynamodb.UpdateTableInput{TableName: &tbl,
+		AttributeDefinitions:        []v2types.AttributeDefinition{{AttributeName: str("g"), AttributeType: v2types.ScalarAttributeTypeS}},
+		GlobalSecondaryIndexUpdates: []v2types.GlobalSecondaryIndexUpdate{mk("ix", "g")}}); err != nil || indexes() != 1 {
+		t.Errorf("v2: a valid UpdateTable: err=%v indexes=%d", err, indexes())
+	}
+
+	// the v1 client
+	c1 := v1.NewClient()
+	if err := v1.AddTable(c1, "tbl", "h", ""); err != nil {
+		t.Fatal(err)
+	}
+	_, err = c1.UpdateTable(&v1sdk.UpdateTableInput{TableName: v1aws.String("tbl"),
+		AttributeDefinitions: []*v1sdk.AttributeDefinition{{AttributeName: v1aws.String("g"), AttributeType: v1aws.String("S")}},
+		GlobalSecondaryIndexUpdates: []*v1sdk.GlobalSecondaryIndexUpdate{
+			{Create: &v1sdk.CreateGlobalSecondaryIndexAction{IndexName: v1aws.String("index"), KeySchema: []*v1sdk.KeySchemaElement{{AttributeName: v1aws.String("g"), KeyType: v1aws.String("HASH")}},
+				Projection: &v1sdk.Projection{ProjectionType: v1aws.String("ALL")}, ProvisionedThroughput: &v1sdk.ProvisionedThroughput{ReadCapacityUnits: v1aws.Int64(1), WriteCapacityUnits: v1aws.Int64(1)}}},
+			{Delete: &v1sdk.DeleteGlobalSecondaryIndexAction{IndexName: v1aws.String("nosuchindex")}}}})
+	if err == nil || !strings.Contains(err.Error(), "ResourceNotFound") {
+		t.Fatalf("v1: deleting an index that does not exist: %v", err)
+	}
+	d, err := c1.DescribeTable(&v1sdk.DescribeTableInput{TableName: v1aws.String("tbl")})
+	if err != nil {
+		t.Fatal(err)
+	}
+	if n := len(d.Table.GlobalSecondaryIndexes); n != 0 {
+		t.Errorf("v1: the failed UpdateTable left %d index(es)", n)
+	}
+}
